@@ -383,20 +383,10 @@ def normalise(lines):
 
 
 def canon(lines):
-    """cbv_clock writes its "CBV clock" line without flushing stdout first (every other trace line does),
-    so in the merged stream a clock line overtakes the program's own lines still buffered since the last
-    flushing trace line.  Both streams are brought to that form: inside every segment between two
-    non-clock CBV lines, clock lines first, then the program's lines, each group in its own order."""
-    out, clocks, prints = [], [], []
-    for l in lines:
-        if l.startswith("CBV clock "):
-            clocks.append(l)
-        elif l.startswith("CBV "):
-            out += clocks + prints + [l]
-            clocks, prints = [], []
-        else:
-            prints.append(l)
-    return out + clocks + prints
+    """Identity.  (Before hook commit 5421d80 cbv_clock wrote its line without flushing stdout, so clock
+    lines could overtake buffered program lines and both streams were re-ordered inside such segments;
+    the hook now flushes, the merged stream is the true order and is compared as it is.)"""
+    return list(lines)
 
 
 def run_model(progs, mode="trace"):
@@ -933,8 +923,6 @@ def run(rep):
         "auto-yielding for-loops, calls of plain functions, await, sleep, timeout, now(), run_event_loop()",
         "the clock is any function of the read count in the theorems (monotone where stated); wall-clock monotonicity is assumed, not tested",
         "trace equality uses the CB_VERIF_CLOCK virtual clock; on real time only now_after - now_before >= ms is tested",
-        "cbv_clock prints its line without flushing stdout: inside a segment between two flushing trace lines the order of clock lines and "
-        "program lines is not compared (both streams are brought to the same canonical order)",
     ]
     rep.coverage["phase_seconds"] = {"proofs+builds": round(t_setup, 1), "correspondence": round(t_corr, 1),
                                      "state_exploration": round(t_states, 1), "total": round(time.time() - t0, 1)}
